@@ -55,6 +55,10 @@ SEEDED = {
     "X05-A": ["C05"], "X05-B": ["C05"], "X01-A": ["C01"], "X01-B": ["C01"], "X03-A": ["C03"], "X03-B": ["C03"],
     "Y16-A": ["C16"], "Y16-B": ["C16"], "Y14-A": ["C14"], "Y14-B": ["C14"], "Y11-A": ["C11", "C01"], "Y11-B": ["C11"], "Y15-A": ["C15", "C08"], "Y15-B": ["C15"],
     "Y12-A": ["C12"], "Y12-B": ["C12"], "Y13-A": ["C13"], "Y13-B": ["C13"], "Y17-A": ["C17"], "Y17-B": ["C17"], "Y04-A": ["C04"], "Y04-B": ["C04"],
+    "Z01-A": ["C01"], "Z01-B": ["C02", "C01", "C03"], "Z02-A": ["C03", "C02"], "Z02-B": ["C03", "C02"], "Z05-A": ["C05", "C03"], "Z05-B": ["C05", "C03"],
+    "Z06-A": ["C06"], "Z06-B": ["C06", "C07"], "Z07-A": ["C07"], "Z07-B": ["C07"], "Z08-A": ["C08"], "Z08-B": ["C08"], "Z11-A": ["C11"], "Z11-B": ["C11", "C01"],
+    "Z12-A": ["C12", "C11"], "Z12-B": ["C12"], "Z13-A": ["C13", "C03"], "Z13-B": ["C13", "C03"], "Z14-A": ["C14"], "Z14-B": ["C14"], "Z15-A": ["C15"], "Z15-B": ["C15"],
+    "Z16-A": ["C16"], "Z16-B": ["C16"], "Z17-A": ["C17"], "Z17-B": ["C17"], "Z03-A": ["C03"], "Z03-B": ["C03"], "Z04-A": ["C04"], "Z04-B": ["C04"], "Z09-A": ["C09"], "Z09-B": ["C09"],
     "C14-A": ["C14"], "C14-B": ["C14"], "C15-A": ["C15"], "C15-B": ["C15"], "C16-A": ["C16"], "C16-B": ["C16"],
 }
 
